@@ -11,20 +11,20 @@ namespace Stef.Idl
 
 /-- `Parser.Parse` on any token list with the kinds of the printed text of `σ`. -/
 theorem parseTokens_print {σ : Schema} {ts : List Token} (hpp : PP σ) (hwf : σ.WF)
-    (hsafe : σ.structs ≠ [])
     (hfix1 : computeRecursive (unmark σ.norm) = .ok σ.norm)
     (hfix2 : pruneUnused σ.norm = some σ.norm)
     (h : Toks ts (tkSchema σ)) : parseTokens ts = .ok σ.norm := by
-  obtain ⟨ts', hg⟩ := grammar_toks h hpp hwf hsafe
+  obtain ⟨ts', hg⟩ := grammar_toks h hpp hwf
   simp only [parseTokens, hg, resolveRefs_raw hwf, hfix1, hfix2]
 
-/-- A printable, well-formed schema with at least one struct whose recursion flags and
-    reachability are already settled re-parses from its printed text to its name-sorted form. -/
-theorem parse_print_of_wf {σ : Schema} (hpp : PP σ) (hwf : σ.WF) (hsafe : σ.structs ≠ [])
+/-- A printable, well-formed schema whose recursion flags and reachability are already settled
+    re-parses from its printed text to its name-sorted form (the empty schema included: its
+    printed text is the package clause only). -/
+theorem parse_print_of_wf {σ : Schema} (hpp : PP σ) (hwf : σ.WF)
     (hfix1 : computeRecursive (unmark σ.norm) = .ok σ.norm)
     (hfix2 : pruneUnused σ.norm = some σ.norm) :
     parse (prettyPrint σ) = .ok σ.norm :=
-  parseTokens_print hpp hwf hsafe hfix1 hfix2
+  parseTokens_print hpp hwf hfix1 hfix2
     (lex_of_lexes (lexes_prettyPrint hpp hwf.no_empty_type))
 
 end Stef.Idl
